@@ -281,6 +281,16 @@ func (ctx *EvalCtx) ident(name string) CV {
 		return CV{f.BigInt(new(big.Int).Neg(new(big.Int).Lsh(big.NewInt(1), 63))), nil}
 	case "world":
 		return CV{ctx.state().world, nil}
+	case "rangeidx":
+		// the hidden index of a range-over-slice loop: -1 before the first element, then 0,1,...
+		if ctx.frame != nil && ctx.block != nil {
+			for _, in := range ctx.block.Instrs {
+				if p, ok := in.(*ssa.Phi); ok && p.Comment == "rangeindex" {
+					return CV{ctx.frame.val(p), p.Type()}
+				}
+			}
+		}
+		ctx.fail("rangeidx used outside a range loop header")
 	}
 	if v, ok := ctx.vars[name]; ok {
 		if ctx.inOld {
@@ -772,6 +782,9 @@ func (ctx *EvalCtx) callExpr(x *ast.CallExpr) CV {
 			if fn := ctx.methodOf(recv.typ, sel.Sel.Name); fn != nil {
 				return ctx.runSpecCall(fn, &recv, x.Args)
 			}
+			if cv, ok := ctx.extMethod(recv, sel.Sel.Name, x.Args); ok {
+				return cv
+			}
 		}
 		ctx.fail("unsupported method call %s in contract", sel.Sel.Name)
 	}
@@ -821,7 +834,23 @@ func (ctx *EvalCtx) runSpecCall(fn *ssa.Function, recv *CV, argExprs []ast.Expr)
 	for _, a := range argExprs {
 		args = append(args, ctx.eval(a))
 	}
-	res := ctx.specCall(fn, args)
+	var res []CV
+	if ct := ctx.ex.W.contracts[fnKey(fn)]; ct != nil && ct.Function {
+		// a 'function' contract: the same uninterpreted function symbols the call rule uses
+		fargs := make([]*Term, len(args))
+		for i, a := range args {
+			fargs[i] = a.t
+		}
+		if ct.ReadsWorld {
+			fargs = append(fargs, ctx.state().world)
+		}
+		rs := fn.Signature.Results()
+		for i := 0; i < rs.Len(); i++ {
+			res = append(res, CV{ctx.ex.f.App(fmt.Sprintf("fn.%s.r%d", sanitize(ct.Key()), i), ctx.ex.tm.SortOf(rs.At(i).Type()), fargs...), rs.At(i).Type()})
+		}
+	} else {
+		res = ctx.specCall(fn, args)
+	}
 	if len(res) == 0 {
 		ctx.fail("function %s has no result", fn.Name())
 	}
